@@ -859,6 +859,10 @@ impl LiveActor {
     pub fn verif_set_syncing(&mut self, namespace: NamespaceId) {
         self.state.insert(namespace);
     }
+    /// Remove a document from the sync set, forgetting all per-peer state.
+    pub fn verif_unset_syncing(&mut self, namespace: &NamespaceId) {
+        self.state.remove(namespace);
+    }
     /// `sync_with_peer`
     pub fn verif_dial(&mut self, namespace: NamespaceId, peer: PublicKey, reason: SyncReason) {
         self.sync_with_peer(namespace, peer, reason)
